@@ -288,6 +288,25 @@ def systematic():
             for kw in (dict(), dict(ha="failed"), dict(fail=[8, 12])):
                 out.append("h 1 %s ; %s ; %s ; %s" % (fsl, mk_apply(2, asl, ob=[(0, "l%d" % tgt)], **kw),
                                                       mk_rollback(rob=[(1, "l%d" % tgt)]), mk_apply(2, asl)))
+    # ForceRetry after the process died at EVERY labelled point of the apply flow and of the auto-rollback: the same
+    # tarball, no further faults, must complete; a rollback afterwards must bring back the tree before the first attempt
+    av = [(0, 20, "0755", "o"), (1, 21, "0644", "v"), (3, 23, "e", "n")]      # needs_vpp: the VPP labels are reached
+    for l in CRASH_A:
+        out.append("h 1 %s ; %s ; %s ; %s" % (fs0, mk_apply(2, av, crash=l, ha="failed" if l in (52, 53) else "ok"),
+                                              mk_apply(2, av, force=1), mk_rollback()))
+    for l in CRASH_R + [52]:
+        out.append("h 1 %s ; %s ; %s ; %s" % (fs0, mk_apply(2, av, crash=l, ha="failed"), mk_apply(2, av, force=1), mk_rollback()))
+        out.append("h 1 %s ; %s ; %s ; %s ; %s" % (fs0, mk_apply(2, av), mk_rollback(crash=l), mk_apply(2, av, force=1), mk_rollback()))
+    for l in APPLY_FAIL:
+        out.append("h 1 %s ; %s ; %s ; %s" % (fs0, mk_apply(2, av, fail=[l, 12]), mk_apply(2, av, force=1), mk_rollback()))
+    # the process dies INSIDE Snapshot after k backups (same disk state: Snapshot fails at artifact k, a directory sits there)
+    # while metadata of an earlier, rolled-back upgrade from the same version is still in rollback/<from>; the operator has
+    # edited files in between.  rollback must refuse; removing the directory + ForceRetry must take a fresh snapshot
+    for k in range(3):
+        pk = av[k][0]
+        out.append("h 1 %s ; %s ; edit p=%d f=d ; edit p=%d f=r9%d.600 ; %s ; %s ; edit p=%d f=x ; %s ; %s" % (
+            fs0, mk_apply(2, av, ha="failed"), pk, av[(k + 1) % 3][0], k, mk_apply(2, av), mk_rollback(), pk,
+            mk_apply(2, av, force=1), mk_rollback()))
     # never-upgraded box (no current-manifest.yaml: version discovered from the binary = id 63)
     out.append("h 63 %s ; %s ; %s ; %s" % (fs0, mk_apply(2, a2f, prev="63o"), mk_rollback(), mk_apply(2, a2f, prev="63o", ha="failed")))
     out.append("h 63 %s ; %s ; %s ; %s" % (fs0, mk_apply(2, a2f, fail=[36]), mk_rollback(), mk_apply(2, a2f, force=1)))
